@@ -1,8 +1,9 @@
 From Coq Require Import Extraction ExtrOcamlBasic.
-From Elk Require Import Base.GoSem Model.C25_Sync.
+From Elk Require Import Base.GoSem Model.C25_Sync Model.C25_Sched.
 Extraction Language OCaml.
 (* Coq's List module must not shadow OCaml's List (used by ocaml/common/zio.ml) *)
 Extraction Blacklist List String Nat.
 From Coq Require Import ZArith NArith.
 Separate Extraction c_call m_call r_call w_call o_call cinit minit rinit winit oinit
+  srun sinit sblocked xrun xinit x_blk
   Z.of_nat Z.to_nat Z.add Z.opp N.add.
